@@ -175,8 +175,9 @@ def report_violation(args, core, mod, world_cls, known, idx, rseed, res):
     else:
         reproduced_inproc = True
     rev, dirty = repo_revision(os.environ.get("VERIF_REPO", "/repo"))
-    os.makedirs(os.path.join(VERIF, "replays"), exist_ok=True)
-    path = os.path.join(VERIF, "replays", f"{args.prop}-{args.verif_seed}-{idx}.json")
+    rdir = os.environ.get("VERIF_REPLAY_DIR") or os.path.join(VERIF, "replays")
+    os.makedirs(rdir, exist_ok=True)
+    path = os.path.join(rdir, f"{args.prop}-{args.verif_seed}-{idx}.json")
     doc = {
         "property": args.prop, "verif_seed": args.verif_seed, "run_index": idx, "run_seed": rseed,
         "hashseed": os.environ.get("PYTHONHASHSEED"), "tier": args.tier, "cfg": res.cfg,
